@@ -50,6 +50,11 @@ def rule_item_option(ctx):
                     for k in c.keywords:
                         if k.arg and not isinstance(k.value, ast.Constant):
                             keys.setdefault(k.arg, []).append((f, c))
+                elif isinstance(c, ast.Assign) and not isinstance(c.value, ast.Constant):
+                    for t in c.targets:
+                        if isinstance(t, ast.Subscript) and norm(t.value) == 'options' and isinstance(t.slice, ast.Constant) and \
+                                isinstance(t.slice.value, str):
+                            keys.setdefault(t.slice.value, []).append((f, c))
     if 'ifNotEmpty' not in keys:
         raise AnalysisError('per-component encoder option ifNotEmpty not found in the component loops')
     n = 0
@@ -317,3 +322,97 @@ def rule_bit_segments(ctx):
                 raise AnalysisError('%s: %s' % (m.short, x))
         ctx.ob('A7.bitseg', m, 'DER BIT STRING is never segmented', eff == 0,
                'maxChunkSize reaches the base encoder as %r' % eff, node=m.node)
+
+
+# ------------------------------------------------------------------- A12.none
+
+def _demanding_uses(expr, v):
+    """Sub-expressions of `expr` that need `v` to be bytes (not None): len(v), v + x, v[...], f(v), iteration.  A use that sits
+    behind `v is not None and ...` / `v is None or ...` in the same expression is guarded and not reported."""
+    out = []
+
+    def walk(e, guarded):
+        if isinstance(e, ast.BoolOp):
+            g = guarded
+            for x in e.values:
+                walk(x, g)
+                t = norm(x)
+                if isinstance(e.op, ast.And) and t in ('%s is not None' % v, v):
+                    g = True
+                if isinstance(e.op, ast.Or) and t in ('%s is None' % v, 'not %s' % v):
+                    g = True
+            return
+        if isinstance(e, ast.IfExp):
+            t = norm(e.test)
+            walk(e.test, guarded)
+            walk(e.body, guarded or t in ('%s is not None' % v, v))
+            walk(e.orelse, guarded or t in ('%s is None' % v, 'not %s' % v))
+            return
+        hit = False
+        if isinstance(e, ast.Call):
+            fn = norm(e.func)
+            if fn not in ('isinstance', 'type', 'repr', 'str', 'bool') and any(isinstance(a, ast.Name) and a.id == v for a in e.args):
+                hit = True
+        elif isinstance(e, ast.BinOp) and any(isinstance(a, ast.Name) and a.id == v for a in (e.left, e.right)):
+            hit = True
+        elif isinstance(e, ast.Subscript) and isinstance(e.value, ast.Name) and e.value.id == v:
+            hit = True
+        elif isinstance(e, ast.Attribute) and isinstance(e.value, ast.Name) and e.value.id == v:
+            hit = True
+        if hit and not guarded:
+            out.append(e)
+        for c in ast.iter_child_nodes(e):
+            if isinstance(c, ast.expr):
+                walk(c, guarded)
+    walk(expr, False)
+    return out
+
+
+def rule_raw_read_none(ctx):
+    """A12.none: a raw stream may be non-blocking and answer `read()` with None ("nothing yet").  In the stream helpers
+    every value received from a raw `read()` is known not to be None wherever it is used as octets (len, +, write,
+    subscript): otherwise an arrival schedule with an empty poll raises TypeError instead of reporting an underrun."""
+    from sa.cfg import reaching_defs, node_exprs, known_at
+    m = ctx.mod('codec.streaming')
+    n = 0
+    for f in ctx.prog.all_functions():
+        if f.module is not m:
+            continue
+        inmem = set()
+        if f.cls is not None:
+            init = f.cls.method('__init__')
+            if init is not None:
+                for a in walk_own(init.node):
+                    if isinstance(a, ast.Assign) and isinstance(a.value, ast.Call) and norm(a.value.func) in ('io.BytesIO', 'BytesIO'):
+                        inmem |= set(norm(t) for t in a.targets)
+        reads = []
+        for a in walk_own(f.node):
+            if isinstance(a, ast.Assign) and len(a.targets) == 1 and isinstance(a.targets[0], ast.Name) and \
+                    isinstance(a.value, ast.Call) and isinstance(a.value.func, ast.Attribute) and a.value.func.attr == 'read' and \
+                    norm(a.value.func.value) not in inmem:
+                reads.append(a)
+        if not reads:
+            continue
+        cfg = ctx.cfg(f)
+        rd = reaching_defs(cfg, f.params())
+        for a in reads:
+            v = a.targets[0].id
+            dnode = cfg.node_of.get(a)
+            if dnode is None:
+                continue
+            n += 1
+            bad = []
+            for node in cfg.stmt_nodes():
+                if node is dnode or dnode not in rd[node].get(v, ()):
+                    continue
+                for e in node_exprs(node):
+                    for u in _demanding_uses(e, v):
+                        if not known_at(cfg, node, '%s is None' % v, False, rd) and not known_at(cfg, node, v, True, rd):
+                            bad.append((node, u))
+            ctx.ob('A12.none', f, '`%s = %s` is not None wherever it is used as octets' % (v, norm(a.value)[:40]), not bad,
+                   '`%s` (line %d) uses it although the read may have answered None: a non-blocking raw stream with nothing to '
+                   'deliver makes this a TypeError instead of an underrun report' % (
+                       norm(bad[0][1])[:50], getattr(bad[0][1], 'lineno', 0)) if bad else 'every such use is behind an `is None` test',
+                   node=a)
+    if n < 3:
+        raise AnalysisError('A12.none: found only %d raw reads in the stream helpers' % n)
